@@ -31,6 +31,7 @@ type Hist struct {
 	podL             *podListerSim
 	nodeL            *nodeListerSim
 	nextRefreshFault bool          // set by an event: the refresh of the next scan fails
+	goneNames        []string      // names of nodes that left the cluster (may be handed out again)
 	scanInterval     time.Duration // controller option: period of RunForever\'s ticker
 	scripted         bool          // a corpus scenario: no random extras beyond what the script says
 	mock             clock.Mock
@@ -505,6 +506,8 @@ func (h *Hist) scan(faults map[int]bool, failDesc map[string]bool) (string, erro
 		if obj, ok := h.k8s.store[n.Name]; ok {
 			n.absorb(obj, sec)
 			kept = append(kept, n)
+		} else if !h.scripted && len(h.goneNames) < 8 {
+			h.goneNames = append(h.goneNames, n.Name)
 		}
 	}
 	h.api = kept
